@@ -139,6 +139,7 @@ def main() -> None:
 
     # -- Number columns use the configured decimal type ------------------------------------------------------
     number_columns_use_decimal(chk, eng)
+    stored_numbers_are_decimal_roundings(chk, (wmin, wmax, wdef), (smin, smax, sdef))
 
     chk.extra["documented_ranges"] = {k: {"min": v[0], "max": v[1], "default": v[2]} for k, v in rng.items()}
     chk.extra["functions_inlined"] = sorted(eng.inlined)
@@ -174,6 +175,89 @@ def number_columns_use_decimal(chk: Check, eng: Engine) -> None:
                   "for a Number component the DuckDB column/CSV-read type is exactly get_decimal_type()",
                   ps, [Ge(gw0, 0), Ge(gs0, 0)], lambda p: Eq(p.value, exp) if p.kind == "return" else False,
                   ["pre.DECIMAL_WIDTH", "pre.DECIMAL_SCALE"])
+
+
+def stored_numbers_are_decimal_roundings(chk: Check, wr: Tuple[int, int, int], sr: Tuple[int, int, int]) -> None:
+    """BOUNDED (labelled; DuckDB's DECIMAL / DOUBLE conversions are outside the encoding): under several valid settings,
+    Number values handed to the real loaders as text, as int64, as float64 DataFrame columns and as CSV cells are stored
+    as the decimal rounding of the value at the configured scale (inputs are exactly representable binary floats or short
+    decimal numerals, so the expected stored value is unambiguous), and sums / differences computed by DuckDB on the
+    stored column are exact decimals."""
+    from decimal import ROUND_HALF_UP, Decimal, getcontext
+    getcontext().prec = 80
+    core.boot(full=True)
+    import importlib
+
+    import pandas as pd
+    cfg = importlib.import_module("vtlengine.duckdb_transpiler.Config.config")
+    io = importlib.import_module("vtlengine.duckdb_transpiler.io._io")
+    sqlmod = importlib.import_module("vtlengine.duckdb_transpiler.sql")
+    model = importlib.import_module("vtlengine.Model")
+    dt = importlib.import_module("vtlengine.DataTypes")
+    import duckdb
+    f = "src/vtlengine/duckdb_transpiler/io/_io.py:_build_dataframe_select_columns"
+    chk.under_contract(f, "bounded")
+    comps = {"Id_1": model.Component("Id_1", dt.Integer, model.Role.IDENTIFIER, False),
+             "Me_1": model.Component("Me_1", dt.Number, model.Role.MEASURE, True)}
+    values = [100000000.0, 99999999.5, 1000000001.0, 1000000000.0, 30000000001.0, 30000000000.5, 549183.44, 1234.5,
+              0.25, -7.0, 27392409840028.0, 123456789.125]
+    settings = [(None, None), (38, 15), (-1, -1), (30, 12), (wr[0] + 6, sr[0])]
+    saved_env = {k: os.environ.get(k) for k in (WVAR, SVAR)}
+    saved = (cfg.DECIMAL_WIDTH, cfg.DECIMAL_SCALE)
+    bad: list = []
+    n = 0
+    try:
+        for w, s in settings:
+            for k, v in ((WVAR, w), (SVAR, s)):
+                if v is None:
+                    os.environ.pop(k, None)
+                else:
+                    os.environ[k] = str(v)
+            cfg.set_decimal_config()
+            width, scale = cfg.DECIMAL_WIDTH, cfg.DECIMAL_SCALE
+            q = Decimal(1).scaleb(-scale)
+            fits = [v for v in values if len(str(int(abs(v)))) <= width - scale]
+            forms = {"float64": pd.DataFrame({"Id_1": range(len(fits)), "Me_1": pd.Series(fits, dtype="float64")}),
+                     "text": pd.DataFrame({"Id_1": range(len(fits)), "Me_1": pd.Series([repr(v) for v in fits], dtype="object")})}
+            for form, df in forms.items():
+                conn = duckdb.connect()
+                try:
+                    sqlmod.initialize_time_types(conn)
+                    io.register_dataframes(conn, {"DS_1": df}, {"DS_1": model.Dataset("DS_1", comps, None)})
+                    got = [r[0] for r in conn.execute('SELECT "Me_1" FROM "DS_1" ORDER BY "Id_1"').fetchall()]
+                    tot = conn.execute('SELECT SUM("Me_1") FROM "DS_1"').fetchone()[0]
+                except Exception as e:  # noqa: BLE001
+                    bad.append({"setting": [w, s], "form": form, "error": f"{type(e).__name__}: {str(e)[:120]}"})
+                    continue
+                finally:
+                    conn.close()
+                want = [Decimal(repr(v)).quantize(q, rounding=ROUND_HALF_UP) for v in fits]
+                for v, g, x in zip(fits, got, want):
+                    n += 1
+                    if Decimal(str(g)) != x:
+                        bad.append({"setting": [w, s], "decimal": f"DECIMAL({width},{scale})", "form": form, "input": repr(v),
+                                    "stored": str(g), "expected": str(x)})
+                if not any(b.get("form") == form and b.get("setting") == [w, s] for b in bad) and Decimal(str(tot)) != sum(want):
+                    bad.append({"setting": [w, s], "form": form, "sum": str(tot), "expected_sum": str(sum(want))})
+    finally:
+        cfg.DECIMAL_WIDTH, cfg.DECIMAL_SCALE = saved
+        for k, v in saved_env.items():
+            if v is None:
+                os.environ.pop(k, None)
+            else:
+                os.environ[k] = v
+    ob = chk.ob(f"{f}::bounded::stored-number-is-the-decimal-rounding", f,
+                "Number values loaded from float64 and text DataFrame columns under 5 valid precision settings are stored as the "
+                "decimal rounding of the input at the configured scale, and SUM over the stored column is the exact decimal sum",
+                bounded=True)
+    ob.backend = "bounded-native"
+    if bad:
+        ob.status, ob.witness, ob.replayed = core.REFUTED, bad[0], True
+        ob.detail = f"{len(bad)} mismatch(es) of {n} stored values, e.g. {bad[0]}"
+        ob.replay_detail = f"real register_dataframes + real DuckDB: {bad[0]}"
+        ob.finding_key = f"stored-number::{bad[0].get('form')}"
+    else:
+        ob.status, ob.detail = core.BOUNDED_OK, f"{n} stored values, {len(settings)} settings x 2 source forms"
 
 
 def native_replay(w: Optional[int], s: Optional[int], g0: Tuple[int, int], wr: Tuple[int, int, int],
